@@ -284,6 +284,8 @@ def _assoc_reactor():
 def replay(rec):
     from pyvc.replay import run_replay
     oid = rec.get("id", "")
+    if "ACSE.negotiate_release" in oid:
+        return run_replay("C07", dict(rec, id="C07/" + oid[len("C27/"):]))
     if oid.startswith("C27/negotiation:"):
         return run_replay("C11", dict(rec, id="C11/" + oid[len("C27/negotiation:"):]))
     return run_replay("C27", rec)
